@@ -87,11 +87,14 @@ def constant_fold_binary_op_extended(
     if not isinstance(left, bytes) and not isinstance(right, bytes):
         return constant_fold_binary_op(op, left, right)
 
-    if op == "+" and isinstance(left, bytes) and isinstance(right, bytes):
-        return left + right
-    elif op == "*" and isinstance(left, bytes) and isinstance(right, int):
-        return left * right
-    elif op == "*" and isinstance(left, int) and isinstance(right, bytes):
-        return left * right
+    try:
+        if op == "+" and isinstance(left, bytes) and isinstance(right, bytes):
+            return left + right
+        elif op == "*" and isinstance(left, bytes) and isinstance(right, int):
+            return left * right
+        elif op == "*" and isinstance(left, int) and isinstance(right, bytes):
+            return left * right
+    except (OverflowError, MemoryError):
+        return None
 
     return None
